@@ -20,8 +20,16 @@
   failing run exposes the error kind and the log of handler invocations made so far; a successful run
   exposes the report (records in execution order).
 
-  Not modelled: message texts; handlers that mutate the dict they are given or call back into the
-  executor; handler return values that are not dicts.
+  Handler return values that are not dicts: falsy ones are `{}` (`or {}`), other mappings behave like dicts,
+  anything else fails at `.keys()` with an AttributeError (`HOut.nondict`).  A handler that calls back into
+  `execute` starts an independent run (`execute` is a function of diagram, handler table and external inputs;
+  the executor keeps no per-run state).  The dicts of a `ModuleSpec` can be edited in place after `add_module`
+  (`Diagram.editModule`): the result is simply another diagram with the same wires — the theorems quantify
+  over all diagrams, accepted or not.
+
+  Not modelled: message texts; what a handler that mutates the dict it is given does to the recorded inputs
+  of its own module (the report stores a copy taken after the handler returned; nothing else reads that dict
+  again).
 -/
 namespace Operon.Wiring
 
@@ -44,11 +52,12 @@ inductive Err where
   -- not a WiringError
   | keyError        -- a wire (appended to `wires` behind `connect`'s back) names an unknown module / port
   | handlerRaised   -- the handler's own exception propagates
+  | attributeError  -- the handler returned a (truthy) object that is not a mapping: `raw_outputs.keys()`
   | outOfFuel       -- artefact of the fuel-indexed loop; proved unreachable
   deriving DecidableEq, Repr
 
 def Err.isWiringError : Err → Bool
-  | .keyError | .handlerRaised | .outOfFuel => false
+  | .keyError | .handlerRaised | .attributeError | .outOfFuel => false
   | _ => true
 
 /-- `PortType.can_flow_to` -/
@@ -103,6 +112,38 @@ def Diagram.connect (d : Diagram) (a p b q : Nat) : Except Err Diagram :=
       | some e => .error e
       | none => .ok { modules := d.modules, wires := d.wires ++ [⟨a, p, b, q⟩] }
 
+def keys {β : Type} (l : List (Nat × β)) : List Nat := l.map (·.1)
+
+/-- `k in dict` -/
+def hasKey {β : Type} (k : Nat) (l : List (Nat × β)) : Bool := l.any (·.1 == k)
+
+/-- `dict[k] = v` -/
+def setKey {β : Type} (k : Nat) (v : β) : List (Nat × β) → List (Nat × β)
+  | [] => [(k, v)]
+  | (k', v') :: r => if k' == k then (k, v) :: r else (k', v') :: setKey k v r
+
+/-- `dict.pop(k)` / `del dict[k]` -/
+def delKey {β : Type} (k : Nat) (l : List (Nat × β)) : List (Nat × β) := l.filter (fun kv => kv.1 != k)
+
+/-- in-place edits of a registered `ModuleSpec` (the dataclass is frozen, its dicts and its set are not):
+    `spec.inputs[p] = pt`, `del spec.inputs[p]`, the same for outputs, `spec.capabilities.add / discard` -/
+inductive SpecEdit where
+  | setIn (p : Nat) (pt : PortType) | delIn (p : Nat)
+  | setOut (p : Nat) (pt : PortType) | delOut (p : Nat)
+  | addCap (c : Nat) | delCap (c : Nat)
+
+def ModuleSpec.edit (m : ModuleSpec) : SpecEdit → ModuleSpec
+  | .setIn p pt => ⟨m.name, setKey p pt m.inputs, m.outputs, m.caps⟩
+  | .delIn p => ⟨m.name, delKey p m.inputs, m.outputs, m.caps⟩
+  | .setOut p pt => ⟨m.name, m.inputs, setKey p pt m.outputs, m.caps⟩
+  | .delOut p => ⟨m.name, m.inputs, delKey p m.outputs, m.caps⟩
+  | .addCap c => ⟨m.name, m.inputs, m.outputs, if c ∈ m.caps then m.caps else m.caps ++ [c]⟩
+  | .delCap c => ⟨m.name, m.inputs, m.outputs, m.caps.filter (· != c)⟩
+
+/-- the diagram after an in-place edit of module `n`'s spec: same names, same wires -/
+def Diagram.editModule (d : Diagram) (n : Nat) (e : SpecEdit) : Diagram :=
+  { modules := d.modules.map (fun m => if m.name == n then m.edit e else m), wires := d.wires }
+
 /-- `required_capabilities`: `required |= module.capabilities` over the modules (a set; here a list
     without repetitions, compared as a set by the harness) -/
 def Diagram.requiredCaps (d : Diagram) : List Nat :=
@@ -124,8 +165,10 @@ inductive Val where
   deriving DecidableEq, Repr
 
 inductive HOut where
-  | ret (outs : List (Nat × Val))   -- `None` / `{}` are `ret []` (`handler(inputs) or {}`)
+  | ret (outs : List (Nat × Val))   -- a dict or any other mapping; `None`, `{}` and every other falsy value
+                                    -- (`0`, `""`, `[]`, `()`, `False`) are `ret []` (`handler(inputs) or {}`)
   | raise
+  | nondict                         -- a truthy object without `.keys()`: list, tuple, str, int, set, generator
 
 abbrev Handler := List (Nat × TV) → HOut
 
@@ -144,16 +187,6 @@ def coerceInput (v : Val) (p : PortType) : Except Err TV :=
     else if t.il < p.il then .error .inputIntegrity
     else .ok t
   | .raw x => .ok ⟨p.dt, p.il, x⟩
-
-def keys {β : Type} (l : List (Nat × β)) : List Nat := l.map (·.1)
-
-/-- `k in dict` -/
-def hasKey {β : Type} (k : Nat) (l : List (Nat × β)) : Bool := l.any (·.1 == k)
-
-/-- `dict[k] = v` -/
-def setKey {β : Type} (k : Nat) (v : β) : List (Nat × β) → List (Nat × β)
-  | [] => [(k, v)]
-  | (k', v') :: r => if k' == k then (k, v) :: r else (k', v') :: setKey k v r
 
 /-- `module_inputs` -/
 abbrev MInputs := Nat → List (Nat × TV)
@@ -253,6 +286,7 @@ def produce (H : Nat → Option Handler) (st : St) (m : ModuleSpec) : Except Fai
   | some h =>
     match h (st.minputs m.name) with
     | .raise => .error (st.calls ++ [⟨m.name, st.minputs m.name⟩], .handlerRaised)
+    | .nondict => .error (st.calls ++ [⟨m.name, st.minputs m.name⟩], .attributeError)
     | .ret raw =>
       if !sameKeys (keys raw) (keys m.outputs) then
         .error (st.calls ++ [⟨m.name, st.minputs m.name⟩], .portsMismatch)
